@@ -129,7 +129,7 @@ def run_case(case):
             y = x.copy()
         elif path == 'pickle':
             y = pickle.loads(pickle.dumps(x))
-        elif path == 'sa_get' and unsync and integ not in ('whfast', 'saba'):
+        elif path == 'sa_get' and ((unsync and integ not in ('whfast', 'saba')) or spec.get('gravity') == 'tree' or spec.get('collision') in ('tree', 'linetree')):
             # only WHFast and SABA offer keep_unsynchronized; for the others getSimulation really synchronises (not bit-for-bit by design)
             path = 'memory'
             y = rebound.Simulation(S1)
@@ -147,6 +147,31 @@ def run_case(case):
             os.unlink(tmpf)
     counters['paths'] = 1
     reattach(y, spec)
+    if path == 'sa_get':
+        # getSimulation sets keep_unsynchronized and synchronises for output by design, so the stream / struct comparisons do not apply;
+        # what is promised is the continuation: the restored run must reach the same physical state as the uninterrupted original
+        counters['restored_through_getSimulation'] = 1
+        hasvar = bool(spec.get('var') or spec.get('megno'))
+        k = case['k']
+        try:
+            for i in range(k):
+                x.steps(1)
+                y.steps(1)
+                counters['continuation_boundaries'] += 1
+            x.synchronize()
+            y.synchronize()
+            px = [[p.x, p.y, p.z, p.vx, p.vy, p.vz, p.m] for p in x.particles]
+            py = [[p.x, p.y, p.z, p.vx, p.vy, p.vz, p.m] for p in y.particles]
+            if x.N != y.N or x.t != y.t:
+                viol.append(dict(mech='continuation:getSimulation-restart-differs', msg='after %d further steps: N %d vs %d, t %r vs %r' % (k, x.N, y.N, x.t, y.t)))
+            elif px != py:
+                j = next(i_ for i_ in range(len(px)) if px[i_] != py[i_])
+                viol.append(dict(mech='continuation:getSimulation-restart-differs', msg='after %d further steps particle %d differs: %r vs %r' % (k, j, px[j][:3], py[j][:3])))
+        except Exception as e:
+            viol.append(dict(mech='continuation:raises:getSimulation', msg='%s: %s' % (type(e).__name__, e)))
+        for v in viol:
+            v['spec'] = spec
+        return dict(violations=viol, cell=[integ, sorted(spec.get('opts', {}).keys()), spec['savepoint']['kind'], path, int(unsync)], counters=counters, sample=dict(spec=spec, path=path, k=k))
     # after the file path, x has had save_to_file called (which itself calls save_to_stream): re-save x for comparison
     S1b = rt.save_bytes(x)
     c1b = rt.sabin(S1b)
